@@ -169,14 +169,44 @@ func genCallback() {
 	}
 
 	// AddCallback / AddStreamCallback / RemoveCallback and the close notice
+	ownRemover := false
 	addFn := "AddCallback"
 	if repaired {
 		addFn = "addCallback"
-		for name, flag := range map[string]string{"AddCallback": "false", "AddStreamCallback": "true"} {
-			fd := findFunc(dir, "callbackStore", name)
-			if len(fd.Body.List) != 1 || stmtString(fd.Body.List[0]) != "c.addCallback(id,fn,"+flag+")" {
-				die("callbackStore.%s: expected the single statement c.addCallback(id, fn, %s)", name, flag)
+		fd := findFunc(dir, "callbackStore", "AddCallback")
+		if len(fd.Body.List) != 1 || stmtString(fd.Body.List[0]) != "c.addCallback(id,fn,false)" {
+			die("callbackStore.AddCallback: expected the single statement c.addCallback(id, fn, false)")
+		}
+		// AddStreamCallback: either just the registration, or the registration plus a remover for exactly that registration:
+		//   jobChan := c.addCallback(id, fn, true)
+		//   return func() { c.Lock(); defer c.Unlock(); if c.newJob[id] == jobChan { delete(c.callbacks, id); c.stopWorker(id, false) } }
+		fd = findFunc(dir, "callbackStore", "AddStreamCallback")
+		switch {
+		case len(fd.Body.List) == 1 && stmtString(fd.Body.List[0]) == "c.addCallback(id,fn,true)":
+		case len(fd.Body.List) == 2 && stmtString(fd.Body.List[0]) == "jobChan:=c.addCallback(id,fn,true)":
+			rs, ok := fd.Body.List[1].(*ast.ReturnStmt)
+			if !ok || len(rs.Results) != 1 {
+				die("callbackStore.AddStreamCallback: second statement is not `return func() {…}`")
 			}
+			fl, ok := rs.Results[0].(*ast.FuncLit)
+			if !ok {
+				die("callbackStore.AddStreamCallback: does not return a function literal")
+			}
+			var got []string
+			for _, s := range fl.Body.List {
+				got = append(got, stmtStringDeep(s))
+			}
+			want := []string{"c.Lock()", "defer c.Unlock()", "if c.newJob[id]==jobChan{delete(c.callbacks,id);c.stopWorker(id,false);}"}
+			if strings.Join(got, " | ") != strings.Join(want, " | ") {
+				die("callbackStore.AddStreamCallback: the returned remover is %v, expected %v", got, want)
+			}
+			add := findFunc(dir, "callbackStore", "addCallback")
+			if last, ok := add.Body.List[len(add.Body.List)-1].(*ast.ReturnStmt); !ok || len(last.Results) != 1 || exprString(last.Results[0]) != "c.newJob[id]" {
+				die("callbackStore.addCallback: does not end with `return c.newJob[id]`")
+			}
+			ownRemover = true
+		default:
+			die("callbackStore.AddStreamCallback: unrecognised body")
 		}
 	}
 	b("callbackAddLocked", "callbackStore.AddCallback (and AddStreamCallback) begin with Lock(); defer Unlock()", holdsMutexForWholeBody(dir, "callbackStore", addFn))
@@ -249,6 +279,7 @@ func genCallback() {
 		}
 		outOfBand = true
 	}
+	b("callbackStreamRemover", "callbackStore.AddStreamCallback returns a function that removes the registration it made and no other (it compares the job channel registered under the id with its own)", ownRemover)
 	b("callbackCloseOutOfBand", "callbackStore: a close notice is not a job in the queue: stopWorker records it, closes the channel, and the worker passes it on after draining what is queued (no send, nothing to wait for)", outOfBand)
 	// the channel capacity expression
 	{
@@ -295,6 +326,40 @@ func genCallback() {
 	if len(calls) == 0 {
 		die("SyncChain: no store calls found")
 	}
+	// how SyncChain takes its callback away: store.RemoveCallback(id) — whatever is registered under the id at that time — or the
+	// remover AddStreamCallback returned (`remove := store.AddStreamCallback(…)`; `defer remove()`), never a mixture
+	byID, byRemover, assigned, deferred := 0, 0, false, false
+	ast.Inspect(sc.Body, func(n ast.Node) bool {
+		switch t := n.(type) {
+		case *ast.CallExpr:
+			switch exprString(t.Fun) {
+			case "store.RemoveCallback":
+				byID++
+			case "remove":
+				byRemover++
+			}
+		case *ast.AssignStmt:
+			if len(t.Lhs) == 1 && exprString(t.Lhs[0]) == "remove" && len(t.Rhs) == 1 {
+				if c, ok := t.Rhs[0].(*ast.CallExpr); ok && exprString(c.Fun) == "store.AddStreamCallback" {
+					assigned = true
+				}
+			}
+		case *ast.DeferStmt:
+			if exprString(t.Call) == "remove()" {
+				deferred = true
+			}
+		}
+		return true
+	})
+	ownOnly := false
+	switch {
+	case byID == 2 && byRemover == 0 && !assigned:
+	case byID == 0 && byRemover == 1 && assigned && deferred && ownRemover:
+		ownOnly = true
+	default:
+		die("SyncChain: unrecognised way of deregistering its callback (%d RemoveCallback(id), %d remove(), remover assigned %v, deferred %v, store returns a remover %v)", byID, byRemover, assigned, deferred, ownRemover)
+	}
+	b("syncChainRemovesOwnOnly", "SyncChain deregisters with the remover of its own registration (deferred: on every way out), not with RemoveCallback(id)", ownOnly)
 	if registersStream != repaired {
 		die("SyncChain registers its callback with %v but callbackStore.Put is %v", map[bool]string{true: "AddStreamCallback", false: "AddCallback"}[registersStream], map[bool]string{true: "repaired", false: "as it is"}[repaired])
 	}
